@@ -319,6 +319,11 @@ def table():
         ("algmaptup", [ANY], sized(1, cap=3), always),
         ("algloopbrktup", [ANY], sized(1, par=lambda s: [[k] for k in range(s[0] + 1)], cap=3), always),
         ("recset", ["i", ANY], sized(2, {0: [1, 2, 3], 1: [1]}, lambda s: [[k] for k in range(s[0])]), lambda cats: cats[1] == "r"),
+        # in-place compaction: remove_if / unique_if with every keep mask (the first element of unique_if always stays), remove, unique
+        ("algremoveif", ["i"], sized(1, par=lambda s: masks(s[0], 1), cap=5), always),
+        ("alguniqueif", ["i"], sized(1, par=lambda s: [m for m in masks(s[0], 1) if not m or m[0] == 1], cap=5), always),
+        ("algunique", ["i"], sized(1), always),
+        ("algremove", ["i", "c"], sized(2, {1: [1]}), never),
         ("eithfirst", [], lambda maxn: [((), list(m)) for ln in range(maxn + 1) for m in itertools.product([0, 1], repeat=ln)], always),
     ]
 
@@ -410,6 +415,8 @@ def sampled_table():
         ("gridassign", ["i", ANY], {}, none, lambda cats: cats[1] == "r"),
         ("joinself", ["lc"], {}, none, never),
         ("algmaplist", [ANY], {}, none, always),
+        ("algremoveif", ["i"], {}, lambda r, s: [r.below(2) for _ in range(s[0])], always),
+        ("alguniqueif", ["i"], {}, lambda r, s: [1] + [r.below(2) for _ in range(s[0] - 1)], always),
     ]
 
 
